@@ -108,6 +108,11 @@ func followUp(c Case) Case {
 var (
 	annKeys     = []string{"a1", "a2", "a3"}
 	envKeys     = []string{"E1", "E2", "E3"}
+	// keys that themselves begin with a dash: legal for items of the original container and
+	// for removals ("--a1" marks "-a1"); they cannot be SET through an adjustment (a set of
+	// "-a1" is the removal of "a1"), so they only occur in the original and in lone removals
+	annDashKeys = []string{"-a1"}
+	envDashKeys = []string{"-E1"}
 	// Mount destinations are compared as written: two are not in clean form, one is also a
 	// device path (a mount and a device at one path are different items), and "/m2" / "/m2/"
 	// are two spellings of one directory (cases using both are judged by C03's differential
@@ -194,8 +199,8 @@ func genOrig(t *rapid.T, full bool) Orig {
 		p = 100
 	}
 	o := Orig{
-		Ann:      subset(t, "oann", annKeys, p),
-		Env:      subset(t, "oenv", envKeys, p),
+		Ann:      subset(t, "oann", append(append([]string{}, annKeys...), annDashKeys...), p),
+		Env:      subset(t, "oenv", append(append([]string{}, envKeys...), envDashKeys...), p),
 		Mounts:   subset(t, "omnt", mountKeys[:4], p), // never both spellings of /m2 in the original
 		Devices:  subset(t, "odev", devKeys, p),
 		Args:     full || rapid.Bool().Draw(t, "oargs"),
@@ -219,6 +224,9 @@ func genOp(t *rapid.T, used map[string]bool) (Op, bool) {
 		op.Act = rapid.SampledFrom([]string{"set", "set", "del", "reset"}).Draw(t, "act")
 		if op.Act == "reset" && op.Fam != "ann" {
 			op.Rev = rapid.Bool().Draw(t, "rev")
+		}
+		if (op.Fam == "ann" || op.Fam == "env") && gen.Uniform(t, "dashkey", 6) == 0 {
+			op.Key, op.Act, op.Rev = "-"+op.Key[:1]+"1", "del", false // "-a1" / "-E1"
 		}
 	case 4, 5:
 		op.Fam = rapid.SampledFrom(keyedSetFams).Draw(t, "fam")
